@@ -298,16 +298,17 @@ PROPS['C19'] = {
                    'the parameter table only grows and existing parameters keep their names. Lemmas: the naming scheme name_ + bits is uniquely decodable (lemma_decode); every choice of the '
                    'constants is an interpretation of the original uninterpreted functions (lemma_constants_are_instantiations) and every interpretation is matched by a choice of the constants '
                    '(lemma_instantiations_are_constants) -- "the function ranges over exactly the instantiations".'),
-    'level_note': ('PARTIAL. Not under contract: flatten_update_function (implicit update functions: regulators -> mk_var -> explode_function; skipping of regulator-free variables), main, '
-                   'the bnet printer / aeon parser of the library. Trusted: the model of FnUpdate / BooleanNetwork in prelude/conv_model.rs '
+    'level_note': ('flatten_update_function is proved too: a variable without regulators is left untouched, an explicit update function is replaced by its flattening, an implicit one by the '
+                   'Shannon expansion over all its regulators with constants named <variable>_<values>, the result mentions only regulators of the variable, no other target is touched. '
+                   'Not under contract: main (the loop over all variables, reading the model, printing) and the aeon parser / bnet printer of the library. Trusted: the model of FnUpdate / BooleanNetwork in prelude/conv_model.rs '
                    '(constructors of the library, smart constructors specified through evaluation, parameter table as ghost functions). Known finding D11: add_parameter fails when a generated '
                    'name is the name of a network VARIABLE and the converter unwraps the error (panic); D12 (nested uninterpreted functions made the converter panic) was found by this '
                    'contract and repaired.'),
     'explanation': 'contracts/conv.ctr; spec/conv.rs (exploded, fflat, covered, params_valid and their monotonicity lemmas); rules R-unwrapelse, R-hoist, R-fmt-val.',
-    'trusted': ['prelude/conv_model.rs: FnUpdate declared with the constructors of biodivine-lib-param-bn 0.7.2; negation / and / implies / mk_var specified by evaluation; BooleanNetwork::{find_parameter, add_parameter, get_parameter} '
-                'specified over a ghost parameter table (add_parameter: precondition "the name is not a variable name", returns Ok exactly when the name is not yet a parameter)',
-                'R-unwrapelse (Option::unwrap_or_else with a closure -> match), R-hoist (operands of one expression bound by let in evaluation order)'],
-    'assumptions': ['every parameter id occurring in an update function is a parameter of the network (params_valid)'],
+    'trusted': ['prelude/conv_model.rs: FnUpdate declared with the constructors of biodivine-lib-param-bn 0.7.2; negation / and / implies / mk_var specified by evaluation; BooleanNetwork::{find_parameter, add_parameter, get_parameter, regulators, get_update_function, get_variable_name, set_update_function} '
+                'specified over ghost tables of parameters, regulators and update functions (set_update_function: precondition "the function mentions only regulators",  (add_parameter: precondition "the name is not a variable name", returns Ok exactly when the name is not yet a parameter)',
+                'R-unwrapelse (Option::unwrap_or_else with a closure -> match), R-hoist (operands of one expression bound by let in evaluation order), R-mapcollect (into_iter().map(F).collect() -> loop)'],
+    'assumptions': ['every parameter id occurring in an update function is a parameter of the network (params_valid) and every variable of an update function is a regulator of its target (both hold for networks accepted by the aeon parser)'],
 }
 
 PROPS['C09'] = {
